@@ -31,7 +31,7 @@ class Contract:
 
     def __init__(self, target, params, requires=(), ensures=(), raises=None, loops=None, overrides=None,
                  setup=None, props=(), name=None, raises_only_if=False, notes="", assumes=(), result_kind=None,
-                 frame=None, extra_names=None, timeout=10000, path_ensures=None):
+                 frame=None, extra_names=None, timeout=10000, path_ensures=None, stubs=None):
         self.target = target
         self.params = params
         self.requires = list(requires)
@@ -50,6 +50,7 @@ class Contract:
         self.extra_names = dict(extra_names or {})
         self.timeout = timeout
         self.path_ensures = path_ensures
+        self.stubs = dict(stubs or {})   # "Class.attr" -> (z3 function, owner class, result kind, 'property'|'method')
         REGISTRY.append(self)
 
 
@@ -156,14 +157,18 @@ def discharge(axioms, pc, cond, timeout):
     t0 = time.time()
     ax = relevant_axioms(axioms, pc, cond)
     hyps = ax + list(pc)
-    r, m = _solve(hyps, cond, timeout)
-    if r == z3.unknown:
-        r, m = _solve(hyps, cond, max(timeout // 2, 2000), **{"smt.mbqi": False, "smt.random_seed": 7})
     ms = lambda: (time.time() - t0) * 1000
-    if r == z3.unsat:
-        return "proved", None, ms(), True
-    if r == z3.sat:
-        return "failed", m, ms(), True
+    attempts = [({}, timeout), ({"smt.mbqi": False, "smt.random_seed": 7}, timeout // 2),
+                ({"smt.random_seed": 3}, timeout // 2), ({"smt.mbqi": False, "smt.random_seed": 11}, timeout // 2)]
+    quantified = any(has_quantifier(h) for h in hyps) or has_quantifier(cond)
+    for i, (opts, to) in enumerate(attempts):
+        r, m = _solve(hyps, cond, max(to, 1000), **opts)
+        if r == z3.unsat:
+            return "proved", None, ms(), True
+        if r == z3.sat:
+            return "failed", m, ms(), True
+        if not quantified:
+            break
     ground = [h for h in hyps if not has_quantifier(h)]
     r2, m2 = _solve(ground, cond, max(timeout // 2, 2000))
     if r2 == z3.sat:
@@ -175,6 +180,8 @@ def make_engine(index, schema_mod, contract=None):
     models = Models()
     eng = Engine(index, schema_mod.SCHEMA, models)
     schema_mod.install(eng)
+    from .spec import default_names
+    eng.extra_names.update(default_names())
     if contract is not None:
         eng.overrides.update(contract.overrides)
         eng.extra_names.update(contract.extra_names)
@@ -242,8 +249,12 @@ def _verify(contract, index, schema_mod, fs, res):
         st.assume(t.term)
     # vacuity guard: the precondition must be satisfiable
     axioms = eng.models.axioms() + schema_mod.axioms(eng)
-    pre = eng.check(st.pc, timeout=10000)
-    res.vacuity["requires_sat"] = str(pre)
+    pre = eng.check(st.pc, timeout=1500)
+    if pre == z3.unknown:
+        pre = eng.check([c for c in st.pc if eng.is_ground(c)], timeout=3000)
+        res.vacuity["requires_sat"] = f"{pre} (quantifier-free part)"
+    else:
+        res.vacuity["requires_sat"] = str(pre)
     if pre == z3.unsat:
         raise SpecError("precondition is unsatisfiable (vacuous contract)")
     eng.entry_state = st.copy()
